@@ -46,10 +46,21 @@ class KillSem(Semantics):
     def may_raise(self, node, state):
         return []
 
+    def _sig(self, expr):
+        c = self.index.canon(expr, self.module) if isinstance(expr, (ast.Name, ast.Attribute)) else None
+        if c and c.startswith("signal."):
+            return c.split(".", 1)[1].split(".")[-1]
+        try:
+            v = self.ctx.ev.eval(expr, self.module)
+            return {9: "SIGKILL", 15: "SIGTERM"}.get(v, str(v))
+        except Exception:
+            return "?"
+
     def _is_group_signal(self, call, depth=0):
+        """None, or the name of the signal this call sends to the task's process group."""
         canon = self.index.canon(call.func, self.module) if isinstance(call.func, (ast.Name, ast.Attribute)) else None
         if canon == "os.killpg":
-            return True
+            return self._sig(call.args[1]) if len(call.args) > 1 else "?"
         if depth < 2:
             res = self.ctx.resolver.callees(call, self.finfo, {})
             for callee in res:
@@ -57,18 +68,30 @@ class KillSem(Semantics):
                     # helper: signals the group on its (only) path, argument derived from the process
                     passes_proc = any(dotted(a) == self.proc or (isinstance(a, ast.Attribute) and dotted(a.value) == self.proc)
                                       for a in call.args)
-                    if passes_proc and any(self.index.canon(c.func, callee.module) == "os.killpg" for c in _calls(callee.node)
-                                           if isinstance(c.func, (ast.Name, ast.Attribute))):
-                        return True
-        return False
+                    kp = [c for c in _calls(callee.node) if isinstance(c.func, (ast.Name, ast.Attribute)) and self.index.canon(c.func, callee.module) == "os.killpg"]
+                    if passes_proc and kp:
+                        params = callee.positional_params()
+                        sigs = set()
+                        for c in kp:
+                            a = c.args[1] if len(c.args) > 1 else None
+                            if isinstance(a, ast.Name) and a.id in params:
+                                i = params.index(a.id) - (1 if callee.cls is not None else 0)
+                                sigs.add(self._sig(call.args[i]) if 0 <= i < len(call.args) else "?")
+                            elif a is not None:
+                                sigs.add(KillSem(self.ctx, callee)._sig(a))
+                        return sorted(sigs)[0] if len(sigs) == 1 else "?"
+        return None
 
     def effect(self, node, state):
         if isinstance(node, tuple):
             return state
         s = state
         for c in _calls(node):
-            if self._is_group_signal(c):
-                s = s.with_fact("group", True).note(node, "process group signalled")
+            sig = self._is_group_signal(c)
+            if sig is not None:
+                s = s.with_fact("group", True).note(node, f"process group signalled ({sig})")
+                if sig == "SIGKILL":
+                    s = s.with_fact("group_kill", True)
             f = c.func
             if isinstance(f, ast.Attribute) and f.attr in ("kill", "terminate", "send_signal") and dotted(f.value) == self.proc:
                 s = s.with_fact("single", True).note(node, f"only the shell is signalled ({f.attr})")
@@ -344,6 +367,11 @@ def run(ctx):
                      "children spawned by the script survive", gk.where, witness(o.state, gk))
     else:
         r6.ok(gcon, f"{len(kouts)} exits; every one with a process signals its group", gk.where)
+        soft = [o for o in kouts if o.state.vars.get(ksem.proc, frozenset(["PROC"])) != frozenset([None]) and not o.state.facts.get("group_kill")]
+        r6.check(not soft, gcon + "::uncatchable", "every exit with a process has sent SIGKILL to the group (whatever the shell's own exit status)",
+                 "the kill sequence can finish without ever sending SIGKILL to the process group (e.g. when the shell itself already exited): a child that ignores "
+                 "the catchable signal keeps running after the task is reported cancelled/killed and its core is released", gk.where,
+                 witness(soft[0].state, gk) if soft else None)
     notreaped = [o for o in kouts if o.state.vars.get(ksem.proc, frozenset(["PROC"])) != frozenset([None]) and not o.state.facts.get("reaped")]
     r6.check(not notreaped, gcon + "::wait", "every exit with a process awaits proc.wait()",
              "the kill sequence can return without awaiting proc.wait(): the core is released while the process may still run", gk.where,
